@@ -108,6 +108,7 @@ func sshTypeCodes(st *types.Struct) []int64 {
 }
 
 func runC24(c *Ctx) {
+	sweepC24(c)
 	ms, um := c.fn("ssh", "marshalStruct"), c.fn("ssh", "Unmarshal")
 	if ms != nil && um != nil {
 		a, b := kindConsts(ms), kindConsts(um)
